@@ -19,8 +19,9 @@ BASE_ASSUME = [
     "-Zmir-opt-level=0 of /repo's current tree, lib target, cfg(not(test)), panic=unwind)",
     "lock_api implementors honour the RawMutex/RawRwLock contracts",
     "models of the std functions listed in engine/rules/interp.py (MODELS, NOUNWIND) are faithful",
-    "Lockable/Sharable::guard-family implementations do not panic; user Drop impls do not panic; arithmetic overflow of "
-    "lock counters is out of scope",
+    "Lockable/Sharable::guard-family implementations do not panic; destructors of guard payloads and of foreign (std) types do not "
+    "panic (the destructor of a value whose type is a type parameter IS treated as user code that may unwind); arithmetic overflow "
+    "of lock counters is out of scope",
 ]
 
 
@@ -217,7 +218,7 @@ prop("C09",
      "'nevertheless finishes': liveness under contention (the authors document possible livelock).")
 
 prop("C10",
-     [st2.rule_F1, st2.rule_F2, st2.rule_F3, st2.rule_F4, st2.rule_F5, st2.rule_F6, st2.rule_F7, st2.rule_V3, st.rule_Q6],
+     [st2.rule_F1, st2.rule_F2, st2.rule_F3, st2.rule_F4, st2.rule_F5, st2.rule_F6, st2.rule_F7, st2.rule_V3, st.rule_Q6, sig.rule_O1],
      "F1 PoisonRef poisons exactly when dropped during unwinding, with the flag of its own Poisonable; F2 Poisonable's scoped calls "
      "poison in the handler before releasing, never on the normal path; F3 Err(PoisonError(x)) exactly on the poisoned edge with the "
      "same payload x as Ok(x); F4 who may call PoisonFlag::poison; F5 RawLock::poison (kill) only in handlers whose try closure has "
@@ -226,7 +227,7 @@ prop("C10",
      "the history model (re-poison after clear, cross-thread visibility beyond Relaxed atomics).")
 
 prop("C11",
-     [ts2.rule_G1, ts2.rule_G2, LEAK_SCOPED, ts2.rule_R3key, st.rule_M1, sig.rule_R2, ts.rule_M4, ts2.rule_E4r, st.rule_M2],
+     [ts2.rule_G1, ts2.rule_G2, LEAK_SCOPED, ts2.rule_R3key, st.rule_M1, sig.rule_R2, ts.rule_M4, ts2.rule_E4r, st.rule_M2, LEAK_ALL],
      "G1 handle_unwind is catch -> handler -> resume (no swallowed panic, handler only on unwind); G2 catch_unwind is used nowhere "
      "else; G3 every scoped function holds nothing at every unwinding exit (its handler releases the acquired receiver once, in "
      "mode); G4 RAII holds release in Drop and the key field drops after them; G5 the key is still owned by the frame while the "
@@ -242,7 +243,7 @@ prop("C12",
      "the fault-injection runs themselves; behaviour of third-party raw locks after a panic.")
 
 prop("C13",
-     [st.rule_X1, A("rule_X2"), ts2.rule_X3, ts2.rule_R4, cg.rule_E3, st.rule_M1, st.rule_M2, sem.rule_E2, A("rule_E5"), st.rule_E1, pos.rule_P1],
+     [st.rule_X1, A("rule_X2"), ts2.rule_X3, ts2.rule_R4, cg.rule_E3, st.rule_M1, st.rule_M2, sem.rule_E2, A("rule_E5"), st.rule_E1, pos.rule_P1, A("rule_Q3")],
      "X1 raw_try_* of Mutex/RwLock returns the unmodified lock_api try result on the not-killed path; X2 collection try is a "
      "conjunction in list order with rollback, in the requested mode only; R4/E5 a failed attempt holds nothing; E3 never waits; E1 the list a collection tries is exactly the leaves of all its members, whatever the nesting; "
      "P1 every container/wrapper hands out, for a shared acquisition, the members' *shared* guards (a read guard that releases exclusively is not undone by dropping it).",
